@@ -4,6 +4,7 @@ CONSTANTS
   FileKinds <- NoFiles
   MaxFiles = 1
   Untils <- AllUntils
+  Headers <- NoHeader
   Decorations <- Plain
   ArgStates <- BadArgs
 INVARIANT TypeOK
